@@ -146,6 +146,35 @@ class RedrawHandler(object):
         return 0
 
 
+def _no_handler():
+    raise RuntimeError("the handler of this command cannot be created")
+
+
+def factory_cases():
+    """command `facboom`: its handler is configured as a factory, and the factory fails - the command cannot run, but the
+    version and help switches never need its handler"""
+    for sw in (["-V"], ["--version"], ["-h"], ["--help"], ["-V", "--no-ansi"], ["-q", "-V"]):
+        for sa in (False, True):
+            yield {"factory": True, "tokens": ["facboom"] + sw, "string_args": sa}
+
+
+def judge_factory(case):
+    toks = case["tokens"]
+    obs = execute(toks, "ok", case["string_args"], False)
+    twin = execute(["solo"] + toks[1:], "ok", case["string_args"], False)  # the same switches behind a command that has a handler
+    what = "version" if ("-V" in toks or "--version" in toks) else "help"
+    if obs["status"] != 0:
+        return [("%s:status:handler-factory" % what, "%s switch behind a command whose handler factory fails: status is not 0" % what, 0,
+                 [obs["status"], (obs["out"] + obs["err"])[:300]])]
+    if what == "version" and (obs["out"], obs["err"]) != (twin["out"], twin["err"]):
+        return [("version:text:handler-factory", "version switch behind a command whose handler factory fails prints something else than behind "
+                 "another command", [twin["out"], twin["err"]], [obs["out"][:300], obs["err"][:300]])]
+    if what == "help" and not ("-q" in toks) and "facboom" not in strip_sgr(obs["out"]):
+        return [("help:page:handler-factory", "help switch behind a command whose handler factory fails does not print that command's page",
+                 "a page naming facboom", obs["out"][:300])]
+    return []
+
+
 def redraw_cases():
     """command `redraw [items...]` x ANSI switches (alone, with another switch on either side, behind '--') x pipe-like / terminal-like streams"""
     sets = [[], ["--no-ansi"], ["--ansi"], ["-v", "--no-ansi"], ["--no-ansi", "-n"], ["x", "--no-ansi"], ["--no-ansi", "x"],
@@ -208,6 +237,9 @@ def build_app(raises):
         c.set_description("command with a multi-valued argument")
         c.add_argument("items", Argument.MULTI_VALUED, "values")
         c.set_handler(Handler(raises))
+    with config.command("facboom") as c:
+        c.set_description("command whose handler factory fails")
+        c.set_handler(_no_handler)
     with config.command("redraw") as c:
         c.set_description("command whose handler overwrites a section")
         c.add_argument("items", Argument.MULTI_VALUED, "values")
@@ -609,6 +641,9 @@ def replay(case):
         except RuntimeError as e:
             return report.viol("baseline:reference-run-broken", str(e), case)
         return None
+    if case.get("factory"):
+        r = judge_factory(case)
+        return report.viol(r[0][0], r[0][1], case, r[0][2], r[0][3]) if r else None
     if case.get("redraw"):
         r = judge_redraw(case)
         return report.viol(r[0][0], r[0][1], case, r[0][2], r[0][3]) if r else None
@@ -669,6 +704,14 @@ def main():
              "pipe-like / terminal-like streams x argv / string form: no escape sequence at all under the no-ANSI switch, the overwriting text "
              "last on screen otherwise")
     evals += nred
+    nfac = 0
+    for c in factory_cases():
+        nfac += 1
+        for sig, what, exp, got in judge_factory(c):
+            rep.violation(report.viol(sig, what + " | line %r" % " ".join(c["tokens"]), c, exp, got))
+    rep.part("failing-handler-factory", cases=nfac, what="version / help switches behind a command whose handler is configured as a factory that "
+             "raises: status 0 and the same version text / the command's help page (the handler is not needed)")
+    evals += nfac
     rep.set("evaluations", evals)
     rep.set("distinct_nontrivial", len(keys))
     rep.set("skipped_v_before_positional", counters.pop("skipped_v_before_positional", 0))
